@@ -11,13 +11,13 @@ import (
 	"fmt"
 	"sort"
 	"sync"
+	"sync/atomic"
 	"unsafe"
 
 	"pikemc/vsched"
 )
 
 type (
-	Pool      = sync.Pool
 	Once      = sync.Once
 	WaitGroup = sync.WaitGroup
 	Cond      = sync.Cond
@@ -25,6 +25,64 @@ type (
 )
 
 func NewCond(l Locker) *Cond { return sync.NewCond(l) }
+
+// Pool is a deterministic stand-in for sync.Pool: one LIFO free list that is
+// emptied whenever a new execution / harness generation starts, so that an
+// execution never depends on what earlier executions of the same process left in
+// the pool. Handing back the most recently Put item to the next Get (from any
+// goroutine) is one of the behaviours sync.Pool permits - and the adversarial
+// one for code that keeps using a buffer after Put.
+type Pool struct {
+	New   func() interface{}
+	mu    sync.Mutex
+	items []interface{}
+	gen   int64
+}
+
+var poolGen int64
+
+// NewGeneration empties every Pool (called by harnesses when they build a fresh instance).
+func NewGeneration() { atomic.AddInt64(&poolGen, 1) }
+
+func (p *Pool) sync() {
+	g := atomic.LoadInt64(&poolGen)<<32 + vsched.Epoch()
+	if p.gen != g {
+		p.gen = g
+		p.items = nil
+	}
+}
+
+func (p *Pool) Get() interface{} {
+	if t := vsched.Cur(); t >= 0 {
+		vsched.Point(t, vsched.OpYield, uintptr(unsafe.Pointer(p)), 0)
+	}
+	p.mu.Lock()
+	p.sync()
+	if n := len(p.items); n > 0 {
+		x := p.items[n-1]
+		p.items = p.items[:n-1]
+		p.mu.Unlock()
+		return x
+	}
+	p.mu.Unlock()
+	if p.New != nil {
+		return p.New()
+	}
+	return nil
+}
+
+func (p *Pool) Put(x interface{}) {
+	if x == nil {
+		return
+	}
+	if t := vsched.Cur(); t >= 0 {
+		vsched.Point(t, vsched.OpYield, uintptr(unsafe.Pointer(p)), 0)
+	}
+	p.mu.Lock()
+	p.sync()
+	p.items = append(p.items, x)
+	p.mu.Unlock()
+}
 
 type Mutex struct{ mu sync.Mutex }
 
